@@ -7,6 +7,7 @@ import re
 from . import grammar as G
 from . import pyref
 from .e1 import all_summaries, loc_kind
+from .absint import LocExpr
 from .templates import Template, reach_relations
 
 NAST = 'supp/nast.py'
@@ -496,3 +497,51 @@ def statement_order_records(repo):
                 if pyref.pathkey(s.root, a) > pyref.pathkey(s.root, b):
                     rec['bad'].append((s.variant, gen(a), gen(b)))
     return recs
+
+
+# ---------------------------------------------------------------------------
+# every summarised construct, in or out of the name-resolution domain (C08 / C11 / C17)
+# ---------------------------------------------------------------------------
+
+def binding_hygiene_records(repo):
+    """Per construct: bindings registered under something that is not a string; bindings of one construct registered in
+    *different* regions at the same location (a join sorts alternatives by location: a tie is broken by set order);
+    text searches whose search string is not the bare identifier."""
+    out = {'nonstr': [], 'ties': [], 'glued': [], 'foreign_params': [], 'n': 0}
+    for cls, summs in summaries(repo).items():
+        for s in summs:
+            for ps in ok_paths(s):
+                out['n'] += 1
+                by_loc = {}
+                owners = {}
+                for b in ps.binds:
+                    if b.get('cls') == 'ArgumentName' and b.get('ident_path') and isinstance(b.get('func'), object):
+                        # the `arguments` node the parameter is written in: 'node.args.defaults[0].args.args[0].arg' -> 'node.args.defaults[0]'
+                        owner = re.sub(r'\.args\.(posonlyargs|args|kwonlyargs)\[\d+\]\.arg$|\.args\.(vararg|kwarg)\.arg$', '', b['ident_path'])
+                        owners.setdefault(id(b.get('func')), set()).add(owner)
+                    if b.get('ident_is_str') is False:
+                        out['nonstr'].append((cls, s.variant, b.get('ident'), src(b.get('srcline'))))
+                    loc = b.get('location')
+                    if loc is not None and b.get('cls') in ('AssignedName', 'ImportedName'):
+                        by_loc.setdefault(repr(loc), set()).add(b['region'])
+                    d = b.get('declared_at')
+                    if isinstance(d, LocExpr) and d.kind == 'text_search' and d.extra:
+                        search, ipath = d.extra[0], d.extra[1]
+                        if ipath is not None and search != b.get('ident') and search.strip() != search or \
+                                (ipath is not None and search.strip() == search and search != b.get('ident')
+                                 and b.get('ident') in search):
+                            out['glued'].append((cls, s.variant, search, b.get('ident'), src(b.get('srcline'))))
+                for fid, os_ in owners.items():
+                    if len(os_) > 1:
+                        out['foreign_params'].append((cls, s.variant, sorted(os_), method_line(repo, cls)))
+                t = None
+                for loc, regions in by_loc.items():
+                    if len(regions) > 1:
+                        # only parallel regions meet in a join: a region and its ancestor never contribute two alternatives
+                        t = t or Template(s.root, ps)
+                        rs = sorted(t.canon(r) for r in regions)
+                        par = [(a, b) for i, a in enumerate(rs) for b in rs[i + 1:]
+                               if a != b and a not in t.ancestors(b) and b not in t.ancestors(a)]
+                        if par:
+                            out['ties'].append((cls, s.variant, loc, sorted(par[0]), method_line(repo, cls)))
+    return out
